@@ -808,14 +808,22 @@ class WcSplit(Generic[AnyStr]):
         """Handle character group."""
 
         c = next(i)
-        if c == '!':
+        if c in ('!', '^'):
             c = next(i)
-        if c in ('^', '-', '['):
+        if c == '[':
+            # A POSIX class, or a literal `[` as first member
+            i.match(RE_POSIX)
+            c = next(i)
+        elif c in ('-', ']'):
+            # A literal `-` or `]` as first member
             c = next(i)
 
         try:
             while c != ']':
-                if c == '\\':
+                if c == '[':
+                    # The `]` of a POSIX class does not close the sequence
+                    i.match(RE_POSIX)
+                elif c == '\\':
                     # Handle escapes
                     self._references(i, True)
                 elif c == '/':
